@@ -12,12 +12,12 @@
 (***************************************************************************)
 EXTENDS Recv
 
-Idle == [busy |-> FALSE, payload |-> <<>>, frame |-> <<>>, flen |-> 0, off |-> 0, started |-> FALSE, kind |-> "none"]
+Idle == [busy |-> FALSE, payload |-> <<>>, acc |-> <<>>, accLen |-> 0, flen |-> 0, done |-> FALSE, kind |-> "none"]
 
 SInit(threads, stream) ==
   [threads |-> threads,
    w |-> [t \in threads |-> Idle],
-   wire |-> <<>>,                      \* completed frames: <<thread, opcode, payload length>>
+   wire |-> <<>>,                      \* completed frames: <<thread, frame length>>
    stream |-> stream,
    delivered |-> <<>>,
    pingsDue |-> <<>>,                  \* payloads of pings seen by receivers, not yet answered
@@ -26,61 +26,69 @@ SInit(threads, stream) ==
 SRes(s, ok, why) == [s |-> s, ok |-> ok, why |-> why]
 SFail(s, why) == SRes(s, FALSE, why)
 
-MidFrame(x) == x.started /\ x.off < x.flen
+\* a thread has put part of a frame on the wire and not yet all of it
+MidFrame(x) == x.accLen > 0 /\ ~x.done
 OthersMidFrame(s, t) == \E u \in s.threads : u # t /\ MidFrame(s.w[u])
+
+\* total length of the frame whose first bytes are a (0 while the header is not complete)
+FrameLenOf(a) ==
+  IF Len(a) < 2 THEN 0
+  ELSE LET l7 == a[2] % 128
+           ext == IF l7 = 126 THEN 2 ELSE IF l7 = 127 THEN 8 ELSE 0
+       IN IF Len(a) < 2 + ext THEN 0
+          ELSE LET f == ParseL(a, 1, Len(a)) IN IF f.ok THEN f.next - 1 ELSE IF f.huge THEN 0 ELSE f.need
+
+Min2(a, b) == IF a < b THEN a ELSE b
 
 \* a send call begins on thread t with this payload (binary)
 SCall(s, e) ==
   IF e.th \notin s.threads THEN SFail(s, "harness.unknown_thread")
   ELSE IF s.w[e.th].busy THEN SFail(s, "harness.nested_call")
+  ELSE IF MidFrame(s.w[e.th]) THEN SFail(s, "C12.frame_left_incomplete")
   ELSE SRes([s EXCEPT !.w[e.th] = [Idle EXCEPT !.busy = TRUE, !.payload = e.payload, !.kind = "data"]], TRUE, "")
 
-\* one transport write: e.offered = the bytes handed to the transport (at most 300 recorded),
-\* e.offered_len their number, e.accepted how many the transport took
+(* One transport write: e.offered = the bytes handed to the transport (at most 300 recorded), e.offered_len
+   their number, e.accepted how many the transport took.  How many writes a frame takes, and what is offered
+   again after a short write, is the implementation's business; what counts is the byte stream the transport
+   accepted: per call exactly one whole frame, no other thread's bytes in between. *)
 STSend(s, e) ==
   LET t == e.th
       x == s.w[t] IN
   IF t \notin s.threads THEN SFail(s, "harness.unknown_thread")
+  ELSE IF e.accepted < 0 \/ e.accepted > e.offered_len THEN SFail(s, "harness.bad_accept")
+  ELSE IF e.accepted = 0 THEN SRes(s, TRUE, "")
   ELSE IF OthersMidFrame(s, t) THEN SFail(s, "C12.frames_interleaved_on_the_wire")
-  ELSE IF ~x.started THEN
-     \* first write of a frame: must offer exactly one whole frame
-     LET small == e.offered_len <= 300
-         f == Parse(e.offered, 1)
-         hdr == ParseL(e.offered, 1, IF Len(e.offered) < 14 THEN Len(e.offered) ELSE 14)
-         flen == IF small THEN (IF f.ok THEN f.next - 1 ELSE 0) ELSE hdr.need
-     IN
-     IF small /\ (~f.ok \/ f.next # e.offered_len + 1) THEN SFail(s, "C12.write_does_not_offer_one_whole_frame")
-     ELSE IF ~small /\ (hdr.ok \/ hdr.huge \/ hdr.need # e.offered_len) THEN SFail(s, "C12.write_does_not_offer_one_whole_frame")
-     ELSE IF x.busy /\ x.kind = "data" /\ small /\ (f.payload # x.payload \/ f.masked # 1)
-          THEN SFail(s, "C12.frame_does_not_carry_the_callers_payload")
-     ELSE IF ~x.busy /\ ~(small /\ f.op = OpPong /\ \E i \in 1..Len(s.pingsDue) : s.pingsDue[i] = f.payload)
-          THEN SFail(s, "C12.unexpected_write_outside_a_send_call")
-     ELSE LET x1 == [x EXCEPT !.started = TRUE, !.flen = flen, !.frame = IF small THEN e.offered ELSE <<>>,
-                              !.off = e.accepted, !.kind = IF x.busy THEN x.kind ELSE "pong"]
-              done == e.accepted = flen
-              s1 == [s EXCEPT !.w[t] = IF done /\ ~x.busy THEN Idle ELSE x1,
-                              !.wire = IF done THEN Append(@, <<t, flen>>) ELSE @,
-                              !.nbytes = @ + e.accepted,
-                              !.pingsDue = IF ~x.busy /\ small
-                                           THEN LET i == CHOOSE i \in 1..Len(@) : @[i] = f.payload
-                                                IN SubSeq(@, 1, i - 1) \o SubSeq(@, i + 1, Len(@))
-                                           ELSE @]
-          IN IF e.accepted < 0 \/ e.accepted > e.offered_len THEN SFail(s, "harness.bad_accept") ELSE SRes(s1, TRUE, "")
+  ELSE IF x.done THEN SFail(s, "C12.more_than_one_frame_written_for_one_call")
   ELSE
-     \* continuation after a short write: exactly the rest of the same frame
-     IF e.offered_len # x.flen - x.off THEN SFail(s, "C12.bytes_lost_or_duplicated_after_short_write")
-     ELSE IF x.frame # <<>> /\ e.offered # SubSeq(x.frame, x.off + 1, x.flen) THEN SFail(s, "C12.bytes_lost_or_duplicated_after_short_write")
-     ELSE LET off2 == x.off + e.accepted
-              done == off2 = x.flen
-              s1 == [s EXCEPT !.w[t] = IF done /\ x.kind = "pong" THEN Idle ELSE [x EXCEPT !.off = off2],
-                              !.wire = IF done THEN Append(@, <<t, x.flen>>) ELSE @,
-                              !.nbytes = @ + e.accepted]
-          IN SRes(s1, TRUE, "")
+    LET rec == SubSeq(e.offered, 1, Min2(e.accepted, Len(e.offered)))
+        acc2 == IF Len(x.acc) < 300 THEN x.acc \o rec ELSE x.acc
+        len2 == x.accLen + e.accepted
+        fl == IF x.flen # 0 THEN x.flen ELSE FrameLenOf(acc2)
+        complete == fl # 0 /\ len2 = fl
+        small == fl # 0 /\ fl <= Len(acc2)
+        f == Parse(acc2, 1)
+    IN
+    IF fl # 0 /\ len2 > fl THEN SFail(s, "C12.bytes_lost_or_duplicated_after_short_write")
+    ELSE IF Len(acc2) >= 14 /\ fl = 0 THEN SFail(s, "C12.written_bytes_are_not_a_frame")
+    ELSE IF ~complete THEN
+         SRes([s EXCEPT !.w[t] = [x EXCEPT !.acc = acc2, !.accLen = len2, !.flen = fl,
+                                           !.kind = IF x.busy THEN x.kind ELSE "pong"], !.nbytes = @ + e.accepted], TRUE, "")
+    ELSE \* the last byte of the frame has been accepted: judge the frame
+      IF small /\ (~f.ok \/ f.next # fl + 1 \/ f.masked # 1 \/ f.rsv # 0) THEN SFail(s, "C12.written_bytes_are_not_one_whole_frame")
+      ELSE IF small /\ x.busy /\ f.payload # x.payload THEN SFail(s, "C12.frame_does_not_carry_the_callers_payload")
+      ELSE IF ~x.busy /\ ~(small /\ f.op = OpPong /\ \E i \in 1..Len(s.pingsDue) : s.pingsDue[i] = f.payload)
+           THEN SFail(s, "C12.unexpected_write_outside_a_send_call")
+      ELSE SRes([s EXCEPT !.w[t] = IF x.busy THEN [x EXCEPT !.acc = acc2, !.accLen = len2, !.flen = fl, !.done = TRUE] ELSE Idle,
+                          !.wire = Append(@, <<t, fl>>), !.nbytes = @ + e.accepted,
+                          !.pingsDue = IF ~x.busy
+                                       THEN LET i == CHOOSE i \in 1..Len(@) : @[i] = f.payload
+                                            IN SubSeq(@, 1, i - 1) \o SubSeq(@, i + 1, Len(@))
+                                       ELSE @], TRUE, "")
 
 SRet(s, e) ==
   LET x == s.w[e.th] IN
   IF ~x.busy THEN SFail(s, "harness.ret_without_call")
-  ELSE IF ~x.started \/ x.off # x.flen THEN SFail(s, "C12.send_returned_before_the_frame_was_complete")
+  ELSE IF ~x.done THEN SFail(s, "C12.send_returned_before_the_frame_was_complete")
   ELSE IF e.value # x.flen THEN SFail(s, "C01.return_value")
   ELSE SRes([s EXCEPT !.w[e.th] = Idle], TRUE, "")
 
